@@ -489,6 +489,33 @@ let set_geometry ho th =
 
 let kv tok = match String.index_opt tok '=' with Some k -> (String.sub tok 0 k, String.sub tok (k + 1) (String.length tok - k - 1)) | None -> (tok, "")
 
+(* ACC <i> lower=<n> trees=<n> local=<n> other=<n> writes=<n>: hooked atomic loads of the query that precedes the line.
+   C18 (atomic-read discipline): stats() reads every huge entry, tree_stats() every tree entry and every slot, stats_at /
+   is_free at least one word of the lower buffer - through atomic loads; fewer hooked loads mean plain reads of shared
+   metadata (a data race with concurrent get/put); a query never writes. *)
+let last_query : string ref = ref ""
+let acc_checked = ref 0
+let handle_acc (toks : string list) =
+  match toks with
+  | i :: rest ->
+      let get k = try int_of_string (List.assoc k (List.map kv rest)) with Not_found -> 0 in
+      let lower = get "lower" and trees = get "trees" and local = get "local" and writes = get "writes" in
+      let ntab = ntrees_i () in
+      let th = 1 lsl !tlog_i in
+      let nslots = List.fold_left (fun a (_, n) -> a + n) 0 !classes_i in
+      incr acc_checked;
+      let bad msg = oracle "C18" i (Printf.sprintf "%s: %s (hooked atomic loads: lower=%d trees=%d local=%d, atomic writes=%d)" !last_query msg lower trees local writes) in
+      if writes > 0 then bad "a query performed an atomic write"
+      else (
+        match String.split_on_char ' ' !last_query with
+        | "stats" :: _ -> if lower < ntab * th then bad (Printf.sprintf "stats() read fewer than the %d huge entries atomically" (ntab * th))
+        | "tree_stats" :: _ ->
+            if trees < ntab then bad (Printf.sprintf "tree_stats() read fewer than the %d tree entries atomically" ntab)
+            else if local < nslots then bad (Printf.sprintf "tree_stats() read fewer than the %d local slots atomically" nslots)
+        | ("stats_at" | "is_free") :: _ -> ()
+        | _ -> ())
+  | [] -> ()
+
 let handle_cfg (toks : string list) =
   let ho = ref !hord_i and th = ref (1 lsl !tlog_i) in
   List.iter
@@ -961,8 +988,10 @@ let suite_seq file =
       | "Q" :: i :: rest when !alive ->
           incr evals;
           let q, res = strip_result rest in
+          last_query := String.concat " " q;
           timed ("q_" ^ List.hd q) (fun () -> handle_query i q res (String.concat " " q))
       | ("OP" | "Q") :: _ -> ()
+      | "ACC" :: rest -> if !alive then handle_acc rest
       | _ -> failwith ("seq: bad line " ^ line));
   let total pre = Hashtbl.fold (fun k v a -> if starts_with pre k then a + v else a) mism 0 in
   let b = Buffer.create 1024 in
